@@ -77,22 +77,23 @@ func helpOutput(node *programTree, sections ...HelpSection) string {
 			helpTxt += help.Name("", scriptName, node.Description)
 			helpTxt += "\n"
 		case HelpSynopsis:
+			// Commands are listed under the name they are registered (and invoked) with.
 			commands := []string{}
-			for _, command := range node.ChildCommands {
-				if command.Name == node.HelpCommandName {
+			for name := range node.ChildCommands {
+				if name == node.HelpCommandName {
 					continue
 				}
-				commands = append(commands, command.Name)
+				commands = append(commands, name)
 			}
 			helpTxt += help.Synopsis("", scriptName, node.SynopsisArgs, options, commands)
 			helpTxt += "\n"
 		case HelpCommandList:
 			m := make(map[string]string)
-			for _, command := range node.ChildCommands {
-				if command.Name == node.HelpCommandName {
+			for name, command := range node.ChildCommands {
+				if name == node.HelpCommandName {
 					continue
 				}
-				m[command.Name] = command.Description
+				m[name] = command.Description
 			}
 			commands := help.CommandList(m)
 			if commands != "" {
@@ -170,11 +171,9 @@ func (gopt *GetOpt) HelpCommand(name string, fns ...ModifyFn) {
 
 func runHelp(ctx context.Context, opt *GetOpt, args []string) error {
 	if len(args) > 0 {
-		for _, command := range opt.programTree.Parent.ChildCommands {
-			if command.Name == args[0] {
-				fmt.Fprint(Writer, helpOutput(command))
-				return ErrorHelpCalled
-			}
+		if command, ok := opt.programTree.Parent.ChildCommands[args[0]]; ok {
+			fmt.Fprint(Writer, helpOutput(command))
+			return ErrorHelpCalled
 		}
 		return fmt.Errorf("no help topic for '%s'", args[0])
 	}
